@@ -139,6 +139,7 @@ type renameOnCloseFile struct {
 	tempPath  string
 	finalPath string
 	published bool
+	aborted   bool
 }
 
 func (f *renameOnCloseFile) Write(p []byte) (int, error) {
@@ -182,11 +183,15 @@ func (f *renameOnCloseFile) Close() error {
 // Abort discards the write without ever publishing it: the ".tmp" file and
 // the 0-byte reservation at the final path are both removed. Abort after a
 // successful Close is a no-op — the published file is only removed by
-// TombstoneFile.
+// TombstoneFile — and so is a second Abort.
 func (f *renameOnCloseFile) Abort() error {
-	if f.published {
+	// A repeated Abort is a no-op too: the paths this writer once owned may
+	// since have been drawn again by another CreateFile, and removing them a
+	// second time would destroy that writer's reservation or published file.
+	if f.published || f.aborted {
 		return nil
 	}
+	f.aborted = true
 	// The handle may already be closed by a failed Close; that error carries
 	// no information here.
 	f.file.Close()
